@@ -18,6 +18,7 @@ PARAMS = "OrqModel.Properties.Params"
 COMPLETE = "OrqModel.Properties.ComposeComplete"
 RETRY = "OrqModel.Properties.Retry"
 QUERY = "OrqModel.Properties.Query"
+FROZEN = "OrqModel.Properties.Frozen"
 
 TRUSTED = [
     "Lean 4.33 kernel (thorough tier: re-checked by leanchecker)",
@@ -86,8 +87,8 @@ PROPS = {
     "C08": dict(
         title="outcome independent of completion order",
         theorems={NEXT: ["C01_offer_from_staged", "C08_offers_sorted"], JOIN: ["C19_inbound_status_perm"]},
-        keys=["status", "sequence"], offers="ids",
-        prof=dict(p_loop=0.0, p_retry=0.0, p_items=0.0, p_badexpr=0.0, p_template=0.4, templates=[4, 4, 0, 5, 6], p_delay=0.3), hist=dict(fixed_outcomes=True, p_lifecycle=0.4, p_odd_terminal=0.0),
+        keys=["status", "sequence", "contexts", "output"], offers="ids",
+        prof=dict(p_loop=0.0, p_retry=0.0, p_items=0.0, p_badexpr=0.0, p_template=0.4, templates=[4, 4, 0, 5, 6, 14, 14, 11], p_delay=0.3), hist=dict(fixed_outcomes=True, p_lifecycle=0.4, p_odd_terminal=0.0),
         monitor="C08", unproven=["order independence of whole runs (C08_routefree, C08_commute) is relational and not proved; search only"],
     ),
     "C09": dict(
@@ -124,7 +125,8 @@ PROPS = {
     "C13": dict(
         title="retry: bounded attempts, no transition from a retried attempt",
         theorems={ITEMS: ["C13_retry_iff", "C13_retry_requires_tally_below_count", "C13_completed_rows", "C13_retry_event_reopens"],
-                  RETRY: ["C13_tally_bounded", "C13_update_keeps_bound", "C13_retrying_only_by_retry_event", "C13_retry_event_licensed", "C13_no_retry_without_status_change"]},
+                  RETRY: ["C13_tally_bounded", "C13_update_keeps_bound", "C13_retrying_only_by_retry_event", "C13_retry_event_licensed", "C13_no_retry_without_status_change"],
+                  FROZEN: ["C13_retried_attempt_undecided", "C18_decided_records_completed"]},
         keys=["status", "staged", "sequence", "contexts"], offers="full",
         prof=dict(p_retry=0.8, max_tasks=4, p_template=0.3, templates=[10, 10, 10, 3, 3]), hist=dict(p_fail=0.5, p_pause=0.05, p_dup_report=0.2), monitor="C13",
         unproven=["the bound is proved on the tally (C13_tally_bounded: every history, every evaluator); that each re-offer corresponds to one bump of the tally, the delay of re-offers and the absence of transitions from a retried attempt are monitored, not proved"],
@@ -156,7 +158,8 @@ PROPS = {
     ),
     "C18": dict(
         title="history is append-only; finished records never change",
-        theorems={HISTORY: ["C18_extends_request", "C18_extends_next", "C18_extends_report", "C18_extends_render", "C18_extends_rerun", "C18_history_extends", "C18_record_core_fixed", "C18_context_fixed"], ITEMS: ["C13_completed_rows"], RETRY: ["C13_retrying_only_by_retry_event", "C13_no_retry_without_status_change"], STATUS: ["C03_fresh_start_statuses"]},
+        theorems={HISTORY: ["C18_extends_request", "C18_extends_next", "C18_extends_report", "C18_extends_render", "C18_extends_rerun", "C18_history_extends", "C18_record_core_fixed", "C18_context_fixed"], ITEMS: ["C13_completed_rows"], RETRY: ["C13_retrying_only_by_retry_event", "C13_no_retry_without_status_change"], STATUS: ["C03_fresh_start_statuses"],
+                  FROZEN: ["C18_decided_records_frozen", "C18_decided_records_completed"]},
         keys=["contexts", "routes", "sequence"], offers=None,
         prof=dict(p_items=0.25, p_join=0.7, p_loop=0.3, p_template=0.3, templates=[8, 8, 2, 0, 3]),
         hist=dict(p_fail=0.3, p_persist=0.15, p_rerun=0.3, p_dup_report=0.3, p_lazy_start=0.25),
@@ -166,7 +169,7 @@ PROPS = {
         title="conducting deterministic; next is a pure query",
         theorems={NEXT: ["C19_next_no_status_change_when_not_running", "C01_no_offer_unless_running_or_remediation", "C08_offers_sorted"], SITES: ["setSites_covered"], JOIN: ["C19_inbound_status_perm"],
                   QUERY: ["C19_next_idempotent", "C19_next_is_query", "C19_render_is_query", "C19_fragment_evaluator_items_blind", "C19_next_idempotent_fragment"]},
-        keys=None, offers="full", prof=dict(p_items=0.35), hist=dict(p_next2=0.5, p_pause=0.05, p_fail=0.3), monitor="C19",
+        keys=None, offers="full", prof=dict(p_items=0.35, p_badexpr=0.3), hist=dict(p_next2=0.5, p_pause=0.05, p_fail=0.3), monitor="C19",
         unproven=["repeatability of next is proved for calls that return tasks and evaluators that cannot see the staging area (C19_next_idempotent); hash-seed independence is outside any model, multi-seed replay only"],
     ),
     "C20": dict(
